@@ -63,6 +63,12 @@ def getValue (h : Heap) (n : Id) : Heap × Outcome (Option CacheVal) :=
       | .panic s => (h, .panic s)
     | .object => store (.obj (r.children.getD []))
 
+/-- sequencing of heap-threading calls: continue on success, stop on error or panic -/
+def liftErr {α β : Type} : Heap × Outcome α → (Heap → α → Heap × Outcome β) → Heap × Outcome β
+  | (h, .ok a), f => f h a
+  | (h, .err e), _ => (h, .err e)
+  | (h, .panic s), _ => (h, .panic s)
+
 /-- the six typed getters; `none` receiver is a nil `*Node` -/
 def getNumeric (h : Heap) (n : Option Id) : Heap × Outcome UInt64 :=
   match n with
@@ -189,21 +195,21 @@ def unpack : Nat → Heap → Id → Heap × Outcome JVal
       | .err e => (h, .err e)
       | .panic s => (h, .panic s)
       | .ok ids =>
-        let rec go (h : Heap) : List Id → List JVal → Heap × Outcome JVal
-          | [], acc => (h, .ok (.arr acc.reverse))
-          | c :: cs, acc => match unpack fuel h c with
-            | (h1, .ok v) => go h1 cs (v :: acc)
+        match foldH (fun h c (acc : List JVal) => match unpack fuel h c with
+            | (h1, .ok v) => (h1, .ok (acc ++ [v]))
             | (h1, .err e) => (h1, .err e)
-            | (h1, .panic s) => (h1, .panic s)
-        go h ids []
+            | (h1, .panic s) => (h1, .panic s)) h ids [] with
+        | (h1, .ok vs) => (h1, .ok (.arr vs))
+        | (h1, .err e) => (h1, .err e)
+        | (h1, .panic s) => (h1, .panic s)
     | .object =>
-      let rec goO (h : Heap) : List (Bytes × Id) → List (Bytes × JVal) → Heap × Outcome JVal
-        | [], acc => (h, .ok (.obj acc.reverse))
-        | (k, c) :: cs, acc => match unpack fuel h c with
-          | (h1, .ok v) => goO h1 cs ((k, v) :: acc)
+      match foldH (fun h (p : Bytes × Id) (acc : List (Bytes × JVal)) => match unpack fuel h p.2 with
+          | (h1, .ok v) => (h1, .ok (acc ++ [(p.1, v)]))
           | (h1, .err e) => (h1, .err e)
-          | (h1, .panic s) => (h1, .panic s)
-      goO h (sortByKey (h.childMap n)) []
+          | (h1, .panic s) => (h1, .panic s)) h (sortByKey (h.childMap n)) [] with
+      | (h1, .ok kvs) => (h1, .ok (.obj kvs))
+      | (h1, .err e) => (h1, .err e)
+      | (h1, .panic s) => (h1, .panic s)
 
 /-- `escapePathKey` of node.go -/
 def escapePathKey : Bytes → Bytes
